@@ -46,3 +46,8 @@ Fixpoint u_before (k : nat) (w : list sym) : option nat :=
               else match u_before k r with Some m => Some (if sym_eqb x U then S m else m) | None => None end
   end.
 Definition from_list (l : list nat) (j : nat) : bool := existsb (Nat.eqb j) l.
+
+(* inside apply_scheduled_jumps at grid index k: the positions (in the user's list) of the jumps that are applied,
+   in the order in which they are applied.  [matches p] = the time of the p-th listed jump matches the current time *)
+Fixpoint applied_at (matches : list bool) (pos : nat) : list nat :=
+  match matches with [] => [] | m :: r => (if m then [pos] else []) ++ applied_at r (S pos) end.
